@@ -273,6 +273,54 @@ fn damaged_blocks(ctx: &Ctx) -> Vec<RCase> {
     v
 }
 
+/// "A patch that fails part-way reports an error rather than success": every byte of the seed patches that *names*
+/// what a chunk is (first byte of the chunk tag, SQPK command letter, file-operation letter, file and header kind of a
+/// header update) set to values that name nothing (0x00, 0xFF, 'Q', the lower-case letter). Chunk sizes stay
+/// correct, so a reader could skip the chunk - but a command it cannot identify is a command it has not applied.
+fn unknown_commands(_: &Ctx) -> Vec<RCase> {
+    let reg = registry();
+    let mut v = vec![];
+    for s in reg.seeds.iter().filter(|s| s.entry == "zipatch") {
+        let b = &s.args[0];
+        let mut at = 12usize;
+        let mut spots: Vec<(usize, &str)> = vec![];
+        while at + 8 <= b.len() {
+            let size = u32::from_be_bytes([b[at], b[at + 1], b[at + 2], b[at + 3]]) as usize;
+            let tag = &b[at + 4..at + 8];
+            if tag == b"EOF_" || at + 8 + size > b.len() {
+                break;
+            }
+            spots.push((at + 4, "chunk tag"));
+            let body = at + 8;
+            if tag == b"SQPK" && size >= 6 {
+                spots.push((body + 4, "SQPK command"));
+                match b[body + 4] {
+                    b'F' => spots.push((body + 5, "file operation")),
+                    b'H' if size >= 7 => {
+                        spots.push((body + 5, "header update file kind"));
+                        spots.push((body + 6, "header update header kind"));
+                    }
+                    _ => {}
+                }
+            }
+            at += 8 + size + 4;
+        }
+        for (pos, what) in spots {
+            for val in [0x00u8, 0xFF, b'Q', b[pos].to_ascii_lowercase()] {
+                if val == b[pos] {
+                    continue;
+                }
+                let mut p = b.clone();
+                p[pos] = val;
+                let mut c = RCase::explicit("zipatch", "unknown-command", vec![p, s.args[1].clone(), vec![0]]).expect_err();
+                c.note = format!("unknown-command: seed {}, {} at offset {} set to {:#04x}", s.name, what, pos, val);
+                v.push(c);
+            }
+        }
+    }
+    v
+}
+
 /// chunk boundaries of a ZiPatch stream (12-byte file header, then BE size + tag + body + crc)
 fn chunk_marks(b: &[u8]) -> Vec<u32> {
     let mut v = vec![12u32];
@@ -613,13 +661,14 @@ fn post(_: &Ctx) {
 pub fn property() -> Property {
     Property {
         id: "C17",
-        rule: "cases = (entry point, valid seed file, corruption) executed in an isolated worker process. Entry points: ConfigFile, EXL, FileInfo (from_existing and new), CharacterData, GearSets, ChatLog, PatchList (boot and game) from_string+to_string, ZiPatch::apply on a scratch tree, extract_frontier_url, BootData (+apply_patch), Blowfish on arbitrary data; values that parse are also written back / queried. Seeds: repository fixtures, output of the C03/C08/C09/C10 generators for fixed internal seeds, hand-built chat logs and launcher executables. Corruptions: every truncation point; every offset x width {1,2,4,8} x value {0, 1, 0x7F.., 0x80.., 0xFF.., +1, -1} x byte order; random compositions of truncate/field/bit-flip/byte/insert (incl. invalid UTF-8, NUL, line structure)/remove/duplicate/copy-range/append; random blobs up to 1 MiB behind intact magic; text formats with characters whose case mapping changes their UTF-8 length at every line start, and at the start of the text combined with every truncation / a two-byte character at every offset; well-formed 1 MiB files made of as many distinct small records as fit (cfg categories / keys, exl rows, patch-list entries and hashes, file-info records) against the CPU budget; chat logs of 16 / 1000 / 20 000 (90 000 thorough) entries with sorted, descending, zig-zag, constant, swapped and shuffled offset tables; I/O fault recipes (missing path, path of the wrong kind, unwritable targets for every patch command, commands before target info, patch streams ending early). Oracle: worker outcome must be value or ordinary failure -- no panic, abort, stack overflow, more than 10 s CPU, or live heap above max(64 MiB, 256 x input); a patch stream without its end-of-file chunk, with an unwritable target, or with a deflated AddFile block whose stream an independent inflater (miniz_oxide) cannot decode within the declared size (every stream byte of every deflated block of the seed patches xor 0x01 / 0x20 / 0xFF) must return Err. Non-trivial: input differs from the seed, is non-empty and keeps the seed's magic; distinct by hash of (entry, arguments).",
+        rule: "cases = (entry point, valid seed file, corruption) executed in an isolated worker process. Entry points: ConfigFile, EXL, FileInfo (from_existing and new), CharacterData, GearSets, ChatLog, PatchList (boot and game) from_string+to_string, ZiPatch::apply on a scratch tree, extract_frontier_url, BootData (+apply_patch), Blowfish on arbitrary data; values that parse are also written back / queried. Seeds: repository fixtures, output of the C03/C08/C09/C10 generators for fixed internal seeds, hand-built chat logs and launcher executables. Corruptions: every truncation point; every offset x width {1,2,4,8} x value {0, 1, 0x7F.., 0x80.., 0xFF.., +1, -1} x byte order; random compositions of truncate/field/bit-flip/byte/insert (incl. invalid UTF-8, NUL, line structure)/remove/duplicate/copy-range/append; random blobs up to 1 MiB behind intact magic; text formats with characters whose case mapping changes their UTF-8 length at every line start, and at the start of the text combined with every truncation / a two-byte character at every offset; well-formed 1 MiB files made of as many distinct small records as fit (cfg categories / keys, exl rows, patch-list entries and hashes, file-info records) against the CPU budget; chat logs of 16 / 1000 / 20 000 (90 000 thorough) entries with sorted, descending, zig-zag, constant, swapped and shuffled offset tables; I/O fault recipes (missing path, path of the wrong kind, unwritable targets for every patch command, commands before target info, patch streams ending early). Oracle: worker outcome must be value or ordinary failure -- no panic, abort, stack overflow, more than 10 s CPU, or live heap above max(64 MiB, 256 x input); a patch stream without its end-of-file chunk, with an unwritable target, with a chunk tag / SQPK command letter / file-operation letter / header-update kind that names nothing (sizes intact), or with a deflated AddFile block whose stream an independent inflater (miniz_oxide) cannot decode within the declared size (every stream byte of every deflated block of the seed patches xor 0x01 / 0x20 / 0xFF) must return Err. Non-trivial: input differs from the seed, is non-empty and keeps the seed's magic; distinct by hash of (entry, arguments).",
         assumptions: &["Blowfish keys are 8..56 bytes (caller-chosen, not untrusted input; the key schedule reads the first 8 bytes)", "PatchList::from_string takes &str: arbitrary bytes are converted lossily to text first", "files a case writes are capped at 16 MiB by RLIMIT_FSIZE (reported to the library as an I/O error)", "wall-clock time is not judged; the CPU budget is 10 s per case"],
         pre: Some(pre),
         parts: vec![
             Box::new(Part { name: "seeds", driver: Driver::Enum(seeds_as_they_are), prop, exhaustive: true }),
             Box::new(Part { name: "io-faults", driver: Driver::Enum(io_faults), prop, exhaustive: true }),
             Box::new(Part { name: "leak-probes", driver: Driver::Enum(leak_probes), prop, exhaustive: false }),
+            Box::new(Part { name: "unknown-commands", driver: Driver::Enum(unknown_commands), prop, exhaustive: true }),
             Box::new(Part { name: "damaged-blocks", driver: Driver::Enum(damaged_blocks), prop, exhaustive: true }),
             Box::new(Part { name: "scale", driver: Driver::Enum(scale), prop, exhaustive: true }),
             Box::new(Part { name: "log-tables", driver: Driver::Enum(log_tables), prop, exhaustive: true }),
